@@ -23,14 +23,15 @@ RULE = (
     "none, sizes agree, a replayed message is delivered with the original type and fields. (2) conservation: after EVERY "
     "commit of the worker connection (= every crash point inside an operation) each pushed message is in exactly one "
     "of {queue, DLQ} unless acknowledged. (3) exclusivity: 2-3 poller threads on 1-4 rows under the cooperative "
-    "scheduler (every schedule with <= 2 preemptions for two pollers, random for three): a row is never claimed by a "
+    "scheduler (every schedule with <= 2 preemptions for two pollers, random for three; and two operators acting on one DLQ "
+    "entry at once: replay x replay, replay x clear_dlq - the message ends up in at most one place, once): a row is never claimed by a "
     "second poller before the first acked / rescheduled / lost its lock. (4) processor level: a poison handler through "
     "the real QueueProcessor error path until the attempt limit; the message must end in the DLQ and replay unchanged. "
     "Non-trivial = sequence that reached the DLQ or had a lock expire, or poller schedule with a switch; distinct = "
     "operation-sequence hash / trace hash."
 )
 ASSUMPTIONS = ["SQLite backend", "the one-second SQL clock is handled by warps only (rows are made due / locks lapsed by rewriting their timestamps)"]
-MIN_OBS = {"model_ops": {"quick": 15000, "thorough": 300000}, "commits_checked_for_conservation": {"quick": 15000, "thorough": 300000}, "poller_schedules_with_switch": {"quick": 500, "thorough": 10000}}
+MIN_OBS = {"model_ops": {"quick": 15000, "thorough": 300000}, "commits_checked_for_conservation": {"quick": 15000, "thorough": 300000}, "poller_schedules_with_switch": {"quick": 500, "thorough": 10000}, "dlq_operator_schedules_with_switch": {"quick": 100, "thorough": 1000}}
 TIMEOUT = {"quick": 800, "thorough": 3400}
 
 
@@ -42,6 +43,7 @@ def gen_cases(tier: str, seed: int) -> list[dict]:
             cases.append({"kind": "pollers2", "nrows": nrows, "chunk": c, "chunks": chunks, "seed": seed, "sample": 300 if tier == "quick" else 4000})
     cases += [{"kind": "pollers3", "i": i, "seed": seed, "runs": 30} for i in range(8 if tier == "quick" else 450)]
     cases += [{"kind": "poison", "i": i, "seed": seed} for i in range(4 if tier == "quick" else 30)]
+    cases += [{"kind": "replayers", "other": o, "seed": seed, "sample": 150 if tier == "quick" else 2000} for o in ("replay", "clear")]
     return cases
 
 
@@ -353,6 +355,89 @@ def _pollers2(case: dict) -> dict:
     return {"violations": _uniq(violations), "obs": dict(obs), "keys": sorted(keys), "sample": sample}
 
 
+def _replay_run(policy, other: str) -> tuple[list[dict], dict]:
+    """One dead-lettered message; two operators act on the DLQ entry at the same time: replay x replay, or
+    replay x clear_dlq.  Whatever the interleaving, the message ends up in exactly one place exactly once."""
+    il.prepare_env()
+    w = World(max_attempts=3)
+    try:
+        from stabilize.queue.messages import StartStage
+
+        w.queue.push(StartStage(execution_type="PIPELINE", execution_id="E", stage_id="dead"))
+        msg = w.queue.poll_one()
+        w.queue.move_to_dlq(msg.message_id, "verif: dead-lettered for the replay race")
+        dlq = w._exec_side("SELECT id FROM queue_messages_dlq").fetchall()
+        if len(dlq) != 1:
+            return [viol("C08/harness", f"expected one DLQ entry, found {len(dlq)}")], {"failed": "setup", "switches": 0, "trace_hash": ""}
+        dlq_id = dlq[0][0]
+        results: dict[str, Any] = {}
+
+        def replayer():
+            me = threading.current_thread().name
+            try:
+                results[me] = w.queue.replay_dlq(dlq_id)
+            except Exception as e:
+                results[me] = f"error:{type(e).__name__}:{e}"
+                try:
+                    w.queue._get_connection().rollback()
+                except Exception:
+                    pass
+
+        def clearer():
+            me = threading.current_thread().name
+            try:
+                results[me] = ("cleared", w.queue.clear_dlq())
+            except Exception as e:
+                results[me] = f"error:{type(e).__name__}:{e}"
+                try:
+                    w.queue._get_connection().rollback()
+                except Exception:
+                    pass
+
+        sched = il.Scheduler(policy)
+        w.commit_listeners.append(lambda world, idx, conn: sched.commit_event(conn))
+        sched.run({"P0": replayer, "P1": replayer if other == "replay" else clearer})
+        info = {"trace_hash": sched.trace_hash(), "switches": sched.switches, "failed": sched.failed, "steps": dict(sched.steps), "results": dict(results)}
+        out: list[dict] = []
+        for name, e in sched.errors.items():
+            out.append(viol("C08/poller-error", f"{name}: {type(e).__name__}: {e}"))
+        rows = w._exec_side("SELECT COUNT(*) FROM queue_messages").fetchone()[0]
+        left = w._exec_side("SELECT COUNT(*) FROM queue_messages_dlq").fetchone()[0]
+        trues = sum(1 for r in results.values() if r is True)
+        cleared = sum(r[1] for r in results.values() if isinstance(r, tuple))
+        # the message is in at most one place, once; it is in the queue exactly as often as a replay reported
+        # success; it may be gone only if the other operator cleared the DLQ (clear_dlq's returned COUNT is
+        # informational - it may include an entry a concurrent replay took - and is not part of the invariant)
+        gone_ok = other == "clear" and cleared >= 1
+        if rows + left > 1 or rows != trues or (rows + left == 0 and not gone_ok):
+            out.append(viol("C08/dlq-entry-lost-or-duplicated", f"one dead-lettered message, concurrent replay x {other}: {rows} queue rows, {left} DLQ rows, {cleared} reported cleared, replay results {results}"))
+        return out, info
+    finally:
+        w.close()
+
+
+def _replayers(case: dict) -> dict:
+    obs: Counter = Counter()
+    keys: set = set()
+    violations = []
+    rng = random.Random(case["seed"] * 101)
+    _, solo = _replay_run(il.Segments([("P0", 10**6), ("P1", 10**6)]), case["other"])
+    n = max(solo.get("steps", {}).get("P0", 8), solo.get("steps", {}).get("P1", 8)) + 2
+    for sc in il.bound_schedules(n, n, 2, names=("P0", "P1"), sample=case["sample"], rng=rng):
+        v, info = _replay_run(il.Segments(sc), case["other"])
+        obs["evaluations"] += 1
+        if info["failed"]:
+            obs["scheduler_watchdog"] += 1
+            continue
+        if info["switches"]:
+            obs["dlq_operator_schedules_with_switch"] += 1
+            keys.add(f"replay:{case['other']}:{info['trace_hash']}")
+        for x in v:
+            x.update(schedule=sc, other=case["other"])
+        violations += v
+    return {"violations": _uniq(violations), "obs": dict(obs), "keys": sorted(keys)}
+
+
 def _pollers3(case: dict) -> dict:
     obs: Counter = Counter()
     keys: set = set()
@@ -448,6 +533,8 @@ def run_case(case: dict) -> dict:
         return _pollers2(case)
     if k == "pollers3":
         return _pollers3(case)
+    if k == "replayers":
+        return _replayers(case)
     return _poison(case)
 
 
